@@ -137,7 +137,8 @@ def job(cfg):
                 ok = note(tag + "/sample-shape", None if tuple(s0.shape) == want else "shape %s, documented %s" % (tuple(s0.shape), want))
                 if ok and kind != "ConditionalIndependentBernoulli":
                     err = structure_ok(s0 if rows is not None else Sym(s0.a[None]), rows or 1, n, event, ctx_matters)
-                    note(tag + "/sample-pairing", err)
+                    if not note(tag + "/sample-pairing", err) and not any(v["relation"] == "sample-pairing" for v in jr["violations"]):
+                        fail("sample-pairing", {"context": rows is not None}, {"kind": kind, "rows": rows, "n": n, "batch_size": None, "what": "pairing"}, err)
                 for b in range(1, n + 2):
                     try:
                         sb = dist.sample(n, context=ctx, batch_size=b)
@@ -218,6 +219,20 @@ def replay(kind, rows, n, batch_size, what):
         else:
             dist, _, cw, event = make(kind)
         ctx = torch.randn(rows, cw) if rows is not None else None
+        if what == "pairing" and rows is not None and cw == 4:
+            # conditional Gaussian rows that are narrow and far apart: block i must lie near its own mean
+            rows_ = max(rows, 3)
+            ctx = torch.zeros(rows_, 4)
+            ctx[:, :2] = (torch.arange(rows_, dtype=torch.float32) * 100.0)[:, None]
+            ctx[:, 2:] = -3.0
+            s = dist.sample(max(n, 4), context=ctx)
+            base = ctx[:, None, :2]
+            if kind.startswith("Flow"):
+                base = (base - 0.5) / 2.0  # the flow's transform is x -> 2x + 0.5, sampling applies its inverse
+            dev = float((s - base).abs().max())
+            res["max_distance_from_own_row_mean"] = dev
+            res["reproduced"] = dev > 10.0
+            return res
         s = dist.sample(n, context=ctx, batch_size=batch_size)
         want = ((rows, n) if rows is not None else (n,)) + tuple(event)
         res.update({"shape": list(s.shape), "documented": list(want)})
